@@ -3,6 +3,13 @@ import AquaVerif.Drv.RainPartition
 import AquaVerif.Drv.RootZone
 import AquaVerif.Drv.WaterStress
 import AquaVerif.Drv.Drainage
+import AquaVerif.Drv.PreIrrigation
+import AquaVerif.Drv.GroundwaterInflow
+import AquaVerif.Drv.CapillaryRise
+import AquaVerif.Drv.GroundwaterTable
+import AquaVerif.Drv.GrowthStage
+import AquaVerif.Drv.Irrigation
+import AquaVerif.Drv.Infiltration
 /-
 Line-protocol driver: reads requests on stdin, writes one reply line per request.
 Imports only Mathlib-free modules, so it links as a native executable.
@@ -14,7 +21,15 @@ def handlers : List (String × Handler) := [
   ("root_zone_water", hRootZone),
   ("water_stress", hWaterStress),
   ("aeration_stress", hAerationStress),
-  ("drainage", hDrainage)
+  ("drainage", hDrainage),
+  ("infiltration", hInfiltration),
+  ("irrigation", hIrrigation),
+  ("irr_schedule", hIrrSchedule),
+  ("growth_stage", hGrowthStage),
+  ("check_groundwater_table", hCheckGroundwaterTable),
+  ("capillary_rise", hCapillaryRise),
+  ("groundwater_inflow", hGroundwaterInflow),
+  ("pre_irrigation", hPreIrrigation)
 ]
 
 def step (ctx : Ctx) (line : String) : Ctx × String :=
